@@ -32,6 +32,7 @@ const (
 	retStr                   // a string
 	retObj                   // a fresh object {"k":1,"a":2}
 	retThrow                 // throws an Error object whose name is "Boom"
+	retGrow                  // a fresh, deeper value at every call: replacer -> [0]; toJSON -> {"next": o}, o a fresh object with this same toJSON
 	retTarget                // the object marked as target in the value description (the SAME object every time)
 )
 
@@ -85,6 +86,7 @@ var behaviours = []behaviour{
 	{"toObj", func(c bctx) ret { return ret{kind: retObj} }},
 	{"toInf", func(c bctx) ret { return ret{kind: retNum, n: inf} }},
 	{"toThrow", func(c bctx) ret { return ret{kind: retThrow} }},
+	{"grow", func(c bctx) ret { return ret{kind: retGrow} }},
 	{"toTarget", func(c bctx) ret { return ret{kind: retTarget} }},
 	{"replTarget", func(c bctx) ret {
 		if c.key == "" {
@@ -164,7 +166,8 @@ type hostModel struct {
 
 func (h *hostModel) fn(mode, name string) *rj.Obj {
 	b := behaviourByName(name)
-	return rj.NewFunction(func(this rj.Value, args []rj.Value) rj.Value {
+	var self *rj.Obj
+	self = rj.NewFunction(func(this rj.Value, args []rj.Value) rj.Value {
 		var key, val, holder rj.Value
 		if thisMode(mode) {
 			key, val = arg(args, 0), this
@@ -187,6 +190,15 @@ func (h *hostModel) fn(mode, name string) *rj.Obj {
 			return rj.ObjV(o)
 		case retThrow:
 			panic(&rj.Throw{Class: "Boom", Msg: "thrown by callback"})
+		case retGrow:
+			if mode != "toJSON" {
+				return rj.ObjV(rj.NewArray(rj.Num(0)))
+			}
+			inner := rj.NewObject()
+			inner.Put(rj.K("toJSON"), rj.ObjV(self))
+			o := rj.NewObject()
+			o.Put(rj.K("next"), rj.ObjV(inner))
+			return rj.ObjV(o)
 		case retTarget:
 			if h.target == nil {
 				return rj.Undef
@@ -195,6 +207,7 @@ func (h *hostModel) fn(mode, name string) *rj.Obj {
 		}
 		return val
 	})
+	return self
 }
 
 func arg(a []rj.Value, i int) rj.Value {
@@ -269,6 +282,20 @@ func (d *drv) host(mode string, b *behaviour) func(call otto.FunctionCall) otto.
 			return o.Value()
 		case retThrow:
 			panic(d.vm.MakeCustomError("Boom", "thrown by callback"))
+		case retGrow:
+			if mode != "toJSON" {
+				a, err := d.vm.Object(`([0])`)
+				if err != nil {
+					panic(err)
+				}
+				return a.Value()
+			}
+			me, _ := d.vm.Get("__tj_" + b.name)
+			inner, _ := d.vm.Object(`({})`)
+			inner.Set("toJSON", me) //nolint:errcheck
+			o, _ := d.vm.Object(`({})`)
+			o.Set("next", inner.Value()) //nolint:errcheck
+			return o.Value()
 		case retTarget:
 			t, _ := d.vm.Get("__target")
 			return t
